@@ -473,6 +473,9 @@ def bip38_decrypt(encrypted_privkey, password):
 
     :return tuple (bytes, bytes, boolean, dict): (Private Key bytes, 4 byte address hash for verification, compressed?, dictionary with additional info)
     """
+    if isinstance(password, str):
+        # BIP38: the passphrase is normalized to NFC, as bip38_intermediate_password does
+        password = unicodedata.normalize("NFC", password)
     d = change_base(encrypted_privkey, 58, 256)
     if len(d) != 43 or double_sha256(d[:-4])[:4] != d[-4:]:
         raise EncodingError("Invalid BIP38 encrypted key, length or checksum incorrect")
@@ -600,7 +603,8 @@ def bip38_encrypt(private_hex, address, password, flagbyte=b'\xe0'):
     if isinstance(address, str):
         address = address.encode('utf-8')
     if isinstance(password, str):
-        password = password.encode('utf-8')
+        # BIP38: the passphrase is normalized to NFC
+        password = unicodedata.normalize("NFC", password).encode('utf-8')
     addresshash = double_sha256(address)[0:4]
     key = scrypt_hash(password, addresshash, 64, 16384, 8, 8)
     derivedhalf1 = key[0:32]
